@@ -153,6 +153,37 @@ struct raw_reader
         return rc == SQLITE_DONE;
     }
 
+    // PRAGMA foreign_key_check inspects ONE schema ("main" unless qualified).  A 1.x library keeps its tables in attached
+    // databases (main is an empty in-memory database), so every attached database is checked by name.  A foreign key whose
+    // parent table lives in another file (1.x PerformanceData -> Track) cannot be judged by SQLite and is left out.
+    std::vector<std::string> fk_violations() const
+    {
+        std::vector<std::string> dbs, out;
+        query("PRAGMA database_list", [&](sqlite3_stmt* st) {
+            const unsigned char* p = sqlite3_column_text(st, 1);
+            if (p && std::string((const char*)p) != "temp")
+                dbs.push_back((const char*)p);
+        });
+        for (auto& d : dbs)
+        {
+            std::vector<std::pair<std::string, std::string>> found;
+            query("PRAGMA \"" + d + "\".foreign_key_check", [&](sqlite3_stmt* st) {
+                const unsigned char* c = sqlite3_column_text(st, 0);
+                const unsigned char* p = sqlite3_column_text(st, 2);
+                found.emplace_back(c ? (const char*)c : "", p ? (const char*)p : "");
+            });
+            for (auto& f : found)
+            {
+                bool parent_here = false;
+                query("SELECT 1 FROM \"" + d + "\".sqlite_master WHERE type = 'table' AND lower(name) = lower('" + f.second + "')",
+                      [&](sqlite3_stmt*) { parent_here = true; });
+                if (parent_here)
+                    out.push_back(d + "." + f.first + "->" + f.second);
+            }
+        }
+        return out;
+    }
+
     // Rows as arrays; integers that fit 31 bits as numbers, wider ones as decimal strings,
     // NULL as the typed sentinels -999999 / "<NULL>" chosen by `types` ('i' or 't' per column).
     json rows(const std::string& sql, const std::string& types) const
